@@ -29,6 +29,7 @@ SHAPES = [
     "public <s> = go <s> | meters;",
     "public <s> = hello | what | you | to you;",
     "public <s> = (one | two | three | four | five | six | seven | eight | nine | ten)+ ;",
+    "public <s> = ten <t> | [ [ ( backward )* ] ]; <t> = [ meters ];",      # accepts the empty sentence: a result without words
 ]
 AUDIOS = ["head", "mid", "t5", "t4", "cut", "tail"]
 
